@@ -16,89 +16,17 @@ I = z3.IntSort()
 R = z3.RealSort()
 Arr = sort_named('Arr')
 
-# ---------------------------------------------------------------------------
-# TBRMMDesignParameters: shapes of an ACCEPTED object (C17 proves that
-# __post_init__ returns only for values in this domain; integer fields are
-# stored as ints by the validator).
-
-pspec = register(ModuleSpec(
-    'matched_markets/methodology/tbrmmdesignparameters.py'))
-RANGE_R = TOpt(TTuple([TReal(), TReal()]))
-RANGE_I = TOpt(TTuple([TInt(), TInt()]))
-PARAM_FIELDS = {
-    'n_test': TInt(), 'iroas': TReal(),
-    'volume_ratio_tolerance': TOpt(TReal()),
-    'geo_ratio_tolerance': TOpt(TReal()),
-    'treatment_share_range': RANGE_R, 'budget_range': RANGE_R,
-    'treatment_geos_range': RANGE_I, 'control_geos_range': RANGE_I,
-    'n_geos_max': TOpt(TInt()), 'n_pretest_max': TInt(), 'n_designs': TInt(),
-    'sig_level': TReal(), 'power_level': TReal(), 'min_corr': TReal(),
-    'rho_max': TReal(), 'flevel': TReal(),
-}
-pspec.cls('TBRMMDesignParameters', fields=dict(PARAM_FIELDS))
-
-
-def _opt(v, f):
-  v = unwrap(v)
-  return z3.Or(v.none, f(v.val))
-
-
-def valid_params(p):
-  """Domain of an accepted parameter object (postcondition of C17)."""
-  def rng(v, lo_ok, strict):
-    def f(t):
-      a, b = N(t.items[0]), N(t.items[1])
-      return z3.And(lo_ok(a), (a < b) if strict else (a <= b))
-    return _opt(v, f)
-  return And(
-      N(p.n_test) >= 1, N(p.iroas) >= 0,
-      _opt(p.volume_ratio_tolerance, lambda t: N(t) > 0),
-      _opt(p.geo_ratio_tolerance, lambda t: N(t) > 0),
-      _opt(p.treatment_share_range, lambda t: z3.And(
-          N(t.items[0]) > 0, N(t.items[0]) < N(t.items[1]),
-          N(t.items[1]) < 1)),
-      rng(p.budget_range, lambda a: a >= 0, True),
-      rng(p.treatment_geos_range, lambda a: a >= 1, False),
-      rng(p.control_geos_range, lambda a: a >= 1, False),
-      _opt(p.n_geos_max, lambda t: N(t) >= 2),
-      N(p.n_pretest_max) >= 3, N(p.n_designs) >= 1,
-      N(p.rho_max) >= z3.RealVal('0.9'), N(p.rho_max) < 1,
-      N(p.sig_level) > 0, N(p.sig_level) < 1,
-      N(p.power_level) > 0, N(p.power_level) < 1,
-      N(p.min_corr) >= z3.RealVal('0.8'), N(p.min_corr) < 1,
-      N(p.flevel) >= z3.RealVal('0.9'), N(p.flevel) < 1)
-
-
-def par_terms(p):
-  """The fields the diagnostics depend on, as z3 terms (UF arguments)."""
-  return [N(p.n_test), N(p.sig_level), N(p.power_level), N(p.flevel),
-          N(p.min_corr)]
-
+from mmverif.contracts.params_view import *  # pylint: disable=wildcard-import
+from mmverif.contracts.params_view import pspec, PARAM_FIELDS, valid_params, par_terms
 
 # ---------------------------------------------------------------------------
-# TBRMMDiagnostics (client view)
+# TBRMMDiagnostics: the full sidecar lives in tbrmmdiagnostics_spec.py (C08);
+# here only the vocabulary the searches use.
 
-dspec = register(ModuleSpec('matched_markets/methodology/tbrmmdiagnostics.py'))
+from mmverif.contracts import tbrmmdiagnostics_spec as dg   # noqa: E402
+dspec = dg.dspec
 NPR = TReal(np=True)
-DIAG_FIELDS = {
-    '_x': TOpt(TOpaque('Arr')), '_y': TOpt(TOpaque('Arr')),
-    '_par': TObj('TBRMMDesignParameters'),
-    '_corr': TOpt(NPR), '_required_impact': TOpt(NPR),
-    '_x_mean': TOpt(NPR), '_y_mean': TOpt(NPR),
-}
-dspec.cls('TBRMMDiagnostics', fields=dict(DIAG_FIELDS))
-
-
-def LEN(arr_term):
-  return z3.Function('len_Arr', Arr, I)(arr_term)
-
-
-def EST(y, par, corr):
-  return uf('EST', [y] + par_terms(par) + [corr], R)
-
-
-def CORR(x, y):
-  return uf('CORR', [x, y], R)
+LEN = dg.LEN
 
 
 def arr(v):
@@ -108,79 +36,21 @@ def arr(v):
   return v.t
 
 
-dspec.contract(
-    'TBRMMDiagnostics.__init__',
-    params={'y': TOpaque('Arr'), 'par': TObj('TBRMMDesignParameters')},
-    modifies=['self.*'],
-    props=('C08', 'C04', 'C09'),
-    raises={'ValueError': ('fewer than 3 time points',
-                           lambda s: LEN(arr(s.y)) < 3)},
-    ensures=[
-        ('y stored, x cleared, parameters attached', lambda s: And(
-            Not(IsNone(s.self._y)), arr(s.self._y) == arr(s.y),
-            IsNone(s.self._x), IsNone(s.self._corr),
-            IsNone(s.self._required_impact))),
-    ],
-    binds={'self._par': lambda s: s.par})
+def RIv(x, y, par):
+  """Required impact of a design with control series x, treatment series y."""
+  return N(dg.F_at('required_impact', z3.BoolVal(False), x, y, par).val)
 
-dspec.contract(
-    'TBRMMDiagnostics.x.setter',
-    params={'value': TOpt(TOpaque('Arr'))},
-    modifies=['self._x', 'self._x_mean', 'self._corr',
-              'self._required_impact'],
-    props=('C08', 'C04', 'C09'),
-    requires=[('y is set', lambda s: Not(IsNone(s.self._y)))],
-    raises={'ValueError': ('x and y differ in length', lambda s: And(
-        Not(IsNone(s.value)), LEN(arr(s.value)) != LEN(arr(s.self._y))))},
-    ensures=[
-        ('x stored, cached results dropped', lambda s: And(
-            Eq(IsNone(s.self._x), IsNone(s.value)),
-            Or(IsNone(s.value), arr(s.self._x) == arr(s.value)),
-            IsNone(s.self._corr), IsNone(s.self._required_impact))),
-    ])
 
-dspec.contract(
-    'TBRMMDiagnostics.estimate_required_impact',
-    params={'corr': TReal(np=True)},
-    result=NPR,
-    modifies=[],
-    props=('C05', 'C02', 'C09'),
-    requires=[('y is set', lambda s: Not(IsNone(s.self._y)))],
-    raises={'ValueError': ('|corr| >= 1',
-                           lambda s: Or(N(s.corr) <= -1, N(s.corr) >= 1))},
-    ensures=[('value', lambda s: N(s.result) == EST(
-        arr(s.self._y), s.self._par, N(s.corr)))])
+def CORRv(x, y, par):
+  return N(dg.F_at('corr', z3.BoolVal(False), x, y, par).val)
 
-dspec.contract(
-    'TBRMMDiagnostics.corr',
-    params={}, result=TOpt(NPR),
-    modifies=['self._corr'],
-    props=('C08', 'C04'),
-    requires=[('y is set', lambda s: Not(IsNone(s.self._y)))],
-    ensures=[('correlation of the current series', lambda s: And(
-        Eq(IsNone(s.result), IsNone(s.self._x)),
-        Or(IsNone(s.result), N(Val(s.result)) == CORR(arr(s.self._x),
-                                                      arr(s.self._y)))))])
 
-dspec.contract(
-    'TBRMMDiagnostics.required_impact',
-    params={}, result=TOpt(NPR),
-    modifies=['self._corr', 'self._required_impact'],
-    props=('C08', 'C04', 'C02'),
-    requires=[
-        ('y is set', lambda s: Not(IsNone(s.self._y))),
-        # correlation of real data is strictly inside (-1, 1) (non-constant,
-        # not collinear series): otherwise estimate_required_impact raises
-        ('correlation strictly between -1 and 1', lambda s: Or(
-            IsNone(s.self._x), And(
-                CORR(arr(s.self._x), arr(s.self._y)) > -1,
-                CORR(arr(s.self._x), arr(s.self._y)) < 1))),
-    ],
-    ensures=[('required impact of the current series', lambda s: And(
-        Eq(IsNone(s.result), IsNone(s.self._x)),
-        Or(IsNone(s.result), N(Val(s.result)) == EST(
-            arr(s.self._y), s.self._par,
-            CORR(arr(s.self._x), arr(s.self._y))))))])
+def EST0(y, par, rho):
+  """Optimistic required impact of a treatment series at correlation rho
+  (no control series attached)."""
+  return N(dg.F_at('estimate_required_impact', z3.BoolVal(True), dg.NOARR, y,
+                   par, [rho]))
+
 
 # ---------------------------------------------------------------------------
 # TBRMMScore
@@ -195,7 +65,7 @@ sspec.cls('TBRMMScore', fields={'diag': TObj('TBRMMDiagnostics'),
 
 def SCORE(x, y, par, k):
   srt = I if k < 4 else R
-  return uf('SCORE%d' % k, [x, y] + par_terms(par), srt)
+  return uf('SCORE%d' % k, [x, y] + dg.par_terms(par), srt)
 
 
 def score_is(tup, x, y, par):
@@ -206,32 +76,29 @@ def score_is(tup, x, y, par):
 sspec.contract(
     'TBRMMScore.__post_init__',
     params={},
-    modifies=['self.diag._corr', 'self.diag._required_impact'],
+    modifies=['self.diag.' + f for f in dg.CACHES],
     props=('C04', 'C09'),
-    requires=[('diag has y', lambda s: Not(IsNone(s.self.diag._y))),
+    requires=[('diag satisfies its invariant', lambda s: dg.inv(s.self.diag)),
               ('correlation strictly between -1 and 1', lambda s: Or(
-                  IsNone(s.self.diag._x), And(
-                      CORR(arr(s.self.diag._x), arr(s.self.diag._y)) > -1,
-                      CORR(arr(s.self.diag._x), arr(s.self.diag._y)) < 1)))],
+                  IsNone(s.self.diag._x), dg.corr_in_range(s.self.diag)))],
     raises={'ValueError': ('no control series',
                            lambda s: IsNone(s.self.diag._x))},
-    ensures=[])
+    ensures=[('diag invariant kept', lambda s: dg.inv(s.self.diag))])
 
 sspec.contract(
     'TBRMMScore.score',
     params={}, result=SCORING,
-    modifies=['self._score', 'self.diag._corr', 'self.diag._required_impact'],
+    modifies=['self._score'] + ['self.diag.' + f for f in dg.CACHES],
     props=('C04', 'C03', 'C09'),
     requires=[
-        ('diag has x and y', lambda s: And(Not(IsNone(s.self.diag._x)),
-                                           Not(IsNone(s.self.diag._y)))),
+        ('diag satisfies its invariant and has x',
+         lambda s: And(dg.inv(s.self.diag), Not(IsNone(s.self.diag._x)))),
         ('at least 3 pre-test points remain for the A/A test (else the test '
          'outcome is None and int(None) raises TypeError)', lambda s: Or(
              Not(IsNone(s.self._score)),
              LEN(arr(s.self.diag._y)) - N(s.self.diag._par.n_test) >= 3)),
-        ('correlation strictly between -1 and 1', lambda s: And(
-            CORR(arr(s.self.diag._x), arr(s.self.diag._y)) > -1,
-            CORR(arr(s.self.diag._x), arr(s.self.diag._y)) < 1)),
+        ('correlation strictly between -1 and 1',
+         lambda s: dg.corr_in_range(s.self.diag)),
     ],
     ensures=[
         ('cached score is returned, otherwise the score of the current '
@@ -242,7 +109,8 @@ sspec.contract(
                 score_is(s.result, arr(s.self.diag._x), arr(s.self.diag._y),
                          s.self.diag._par)),
              Or(IsNone(s.old.self._score),
-                Eq(Val(s.old.self._score), s.result)))),
+                Eq(Val(s.old.self._score), s.result)),
+             dg.inv(s.self.diag))),
     ])
 
 sspec.contract(
@@ -273,16 +141,12 @@ gspec.contract(
                                                      s.self.control_geos))))},
     ensures=[])
 
-# trivial getters are inlined at call sites (return self._y / self._x)
-dspec.inline.update({'TBRMMDiagnostics.y', 'TBRMMDiagnostics.x'})
-
-
 def comparable(o):
   """A score object whose score tuple can be produced without raising."""
   d = o.diag
-  return Or(Not(IsNone(o._score)), And(
-      Not(IsNone(d._x)), Not(IsNone(d._y)),
-      LEN(arr(d._y)) - N(d._par.n_test) >= 3))
+  return And(dg.inv(d), Or(Not(IsNone(o._score)), And(
+      Not(IsNone(d._x)), dg.corr_in_range(d),
+      LEN(arr(d._y)) - N(d._par.n_test) >= 3)))
 
 
 def SV(o, old=False):
@@ -310,9 +174,9 @@ def lex_lt(a, b):
 sspec.contract(
     'TBRMMScore.__lt__',
     params={'other': TObj('TBRMMScore')}, result=TBool(),
-    modifies=['self._score', 'self.diag._corr', 'self.diag._required_impact',
-              'other._score', 'other.diag._corr',
-              'other.diag._required_impact'],
+    modifies=['self._score', 'other._score'] +
+    ['self.diag.' + f for f in dg.CACHES] +
+    ['other.diag.' + f for f in dg.CACHES],
     props=('C03', 'C14', 'C09'),
     requires=[('both scores can be produced',
                lambda s: And(comparable(s.self), comparable(s.other)))],
@@ -322,9 +186,10 @@ sspec.contract(
         ('scores are now cached and unchanged in value', lambda s: And(
             Not(IsNone(s.self._score)), Not(IsNone(s.other._score)),
             z3.And([a == b for a, b in zip(SV(s.self), SV(s.old.self))]),
-            z3.And([a == b for a, b in zip(SV(s.other), SV(s.old.other))]))),
+            z3.And([a == b for a, b in zip(SV(s.other), SV(s.old.other))]),
+            dg.inv(s.self.diag), dg.inv(s.other.diag))),
     ])
 
-FUNCTIONS = []
+FUNCTIONS = list(dg.FUNCTIONS)
 LEMMAS = []
 # contracts used at call sites whose bodies are verified elsewhere / later
